@@ -1,5 +1,6 @@
 // ---- spec/nv.rs : name-value pair stream (specification section 3.4)
 /// Some((head_len, name_len, val_len)) iff a complete pair starts at s[0].
+#[verifier::opaque]
 pub open spec fn pair_step(s: Seq<u8>) -> Option<(int, int, int)> {
     if !dec_ok(s) { None } else {
         let l1 = dec_len(s);
@@ -19,7 +20,7 @@ pub open spec fn decode_pairs(s: Seq<u8>) -> Seq<(Seq<u8>, Seq<u8>)>
 {
     match pair_step(s) {
         None => seq![],
-        Some(p) => if pair_total(p) >= 2 {
+        Some(p) => if 2 <= pair_total(p) <= s.len() {
             seq![(s.subrange(p.0, p.0 + p.1), s.subrange(p.0 + p.1, pair_total(p)))] + decode_pairs(s.skip(pair_total(p)))
         } else { seq![] },
     }
@@ -29,7 +30,7 @@ pub open spec fn decode_rest(s: Seq<u8>) -> Seq<u8>
 {
     match pair_step(s) {
         None => s,
-        Some(p) => if pair_total(p) >= 2 { decode_rest(s.skip(pair_total(p))) } else { s },
+        Some(p) => if 2 <= pair_total(p) <= s.len() { decode_rest(s.skip(pair_total(p))) } else { s },
     }
 }
 pub open spec fn enc_pair(n: Seq<u8>, v: Seq<u8>) -> Seq<u8> { enc(n.len() as int) + enc(v.len() as int) + n + v }
